@@ -268,7 +268,14 @@ def modules_equal(m1, m2):
     # effective architecture: torch's structural repr (layer types, sizes, activations) - init_dict may differ
     # cosmetically (e.g. output_activation None vs. the activation it defaults to)
     if repr(m1) != repr(m2):
-        return "structure"
+        # name the first differing line of the structural repr, so that different structural defects get different keys
+        for a, b in zip(repr(m1).splitlines(), repr(m2).splitlines()):
+            if a != b:
+                lab = a.strip().split(":")[0].strip("()") if a.strip().startswith("(") else "layout"
+                acts = ("Identity", "ReLU", "ELU", "GELU", "Tanh", "Sigmoid", "Softmax", "LeakyReLU", "Softplus", "Softsign", "PReLU")
+                is_act = any(x in a for x in acts) and any(x in b for x in acts)
+                return f"structure[{'activation:' if is_act else ''}{lab}]"
+        return "structure[layout]"
     t1, t2 = module_tensors(m1), module_tensors(m2)
     if sorted(t1) != sorted(t2):
         return "tensor-names"
